@@ -204,6 +204,8 @@ def attrs_s(draw, t, v, rich=True, probe=True, need_mask=False, own=None):
             out.append(["Sensitive", draw(st.booleans())])
     elif probe and chance(draw, 30):
         out.append(["Sensitive", True])
+    if rich and probe and t == "Certificate" and chance(draw, 40):
+        out.append(draw(st.sampled_from([["Cryptographic Length", 2048], ["Cryptographic Algorithm", "RSA"]])))
     if rich and own is not None:
         if draw(st.integers(0, 3)) == 0:
             out.append(["Cryptographic Algorithm", own[0]])
